@@ -20,6 +20,12 @@ func runC06(c *Ctx) {
 	c06RRPolicy(c)
 	c06RRContent(c)
 	c06Learning(c)
+	// the learned table is written under the Via host / packet source and read under the Route URI host: both must be
+	// the text as received (rule shared with C01/C14)
+	rulePureCapture(c, "pure-capture")
+	// every Via entry already present is decoded or the whole header is left alone: a decoder that skips an entry it cannot
+	// read re-encodes the stack without it (rule shared with C14)
+	c14DecoderErrors(c, "ParseVia", "parseViaParam")
 }
 
 func c06InsertOnce(c *Ctx) {
